@@ -585,7 +585,11 @@ impl Parser {
             }
             _ => {
                 self.drop_lexem();
-                Ok(left)
+                match not {
+                    // `x not` with no operator behind it negates nothing
+                    true => Err("Error parsing condition, expecting an operator after NOT".to_string()),
+                    false => Ok(left),
+                }
             }
         };
 
